@@ -23,6 +23,7 @@ type c13Decl struct {
 	M     map[string]string `long:"mm"`
 	Gamma string            `long:"Delta"`
 	Delta string            `long:"gamma"`
+	Eo    string            `long:"eopt" short:"é"`
 	NoIni string            `long:"ni" no-ini:"yes"`
 	Grp   c13Grp            `group:"Grp" namespace:"g"`
 	Cmd   c13Cmd            `command:"cmd"`
@@ -47,6 +48,7 @@ var c13Opts = []c13Opt{
 	{"", "Ci", "ci", "", 2, 2},
 	{"", "Gamma", "Delta", "", 0, 0}, // its long name is another option's field name
 	{"", "Delta", "gamma", "", 0, 0},
+	{"", "Eo", "eopt", "é", 0, 0}, // a non-ASCII short name
 }
 
 // refIniLookup: which option does `key` denote among the candidates, by the
@@ -98,9 +100,9 @@ func H_C13_equiv(v *V) {
 	header := ""
 	switch section {
 	case 0:
-		cands = []int{0, 1, 2, 3, 4, 5, 10, 11, 6, 7}
+		cands = []int{0, 1, 2, 3, 4, 5, 10, 11, 12, 6, 7}
 	case 1:
-		cands = []int{0, 1, 2, 3, 4, 5, 10, 11, 6, 7}
+		cands = []int{0, 1, 2, 3, 4, 5, 10, 11, 12, 6, 7}
 		header = []string{"[Application Options]", "[application options]", "[APPLICATION OPTIONS]", "[ Application Options ]"}[v.Choice(4)]
 	case 2:
 		cands = []int{6, 7}
@@ -185,7 +187,7 @@ func H_C13_equiv(v *V) {
 		v.Reach("as-defaults")
 	}
 	same := v.EqStr(a.Alpha, b.Alpha) && v.EqStr(a.Beta, b.Beta) && v.EqStrs(a.L, b.L) && a.N == b.N && a.B == b.B &&
-		v.EqStr(a.Gamma, b.Gamma) && v.EqStr(a.Delta, b.Delta) && v.EqStr(a.Grp.Gs, b.Grp.Gs) && v.EqStr(a.Grp.X, b.Grp.X) && v.EqStrs(a.Cmd.Cs, b.Cmd.Cs) && a.Cmd.Ci == b.Cmd.Ci
+		v.EqStr(a.Gamma, b.Gamma) && v.EqStr(a.Delta, b.Delta) && v.EqStr(a.Eo, b.Eo) && v.EqStr(a.Grp.Gs, b.Grp.Gs) && v.EqStr(a.Grp.X, b.Grp.X) && v.EqStrs(a.Cmd.Cs, b.Cmd.Cs) && a.Cmd.Ci == b.Cmd.Ci
 	v.Assert(same, "each entry selects the same option and stores the same value as the corresponding flag; repeated entries accumulate")
 	v.Assert(len(a.M) == len(b.M), "map entries accumulate like repeated flags")
 	for k, x := range b.M {
